@@ -1,4 +1,5 @@
 import Anndb.Proofs.CodecLemmas
+import Anndb.Props.C02
 import Anndb.Generated
 /-!
 # C08 — Index snapshots round-trip exactly for every reachable state and any reader
@@ -216,6 +217,99 @@ theorem no_bare_reads : Generated.codecBareReads = [] := by decide
 theorem length_field_widths :
     Generated.codecMetadataCountType = "uint16" ∧ Generated.codecKeyLenType = "uint8" ∧
     Generated.codecValLenType = "uint16" := by decide
+
+/-! ### loading into a used index
+
+`Hnsw.Load` works on the receiver: what is left of the old contents depends on which fields it
+clears before reading. `loadInto rs old f` is the index state after `Load` of the stream of `f`
+(`none` = the empty stream, where `Load` returns right after the resets) into an index in state
+`old`, when exactly the fields named in `rs` are cleared first; the vertex loop replaces shard `i`
+and adds to `len` / `bytesSize`, as the code does. -/
+
+structure IdxState where
+  len : Nat
+  bytes : Nat
+  entry : Option Nat
+  shards : List (List VRec)
+deriving DecidableEq, Repr
+
+def IdxState.empty : IdxState := ⟨0, 0, none, List.replicate 16 []⟩
+
+def vbytes (v : VRec) : Nat := 16 + 4 * v.vec.length + (v.md.map fun kv => kv.key.length + kv.val.length).sum
+
+def loadInto (rs : List String) (old : IdxState) : Option File → IdxState
+  | none =>
+    { len := if "len" ∈ rs then 0 else old.len,
+      bytes := if "bytesSize" ∈ rs then 0 else old.bytes,
+      entry := if "entrypoint" ∈ rs then none else old.entry,
+      shards := if "vertices" ∈ rs then List.replicate 16 [] else old.shards }
+  | some f =>
+    { len := (if "len" ∈ rs then 0 else old.len) + (f.shards.map List.length).sum,
+      bytes := (if "bytesSize" ∈ rs then 0 else old.bytes) + ((f.shards.map fun sh => (sh.map vbytes).sum).sum),
+      entry := some f.entry,
+      shards := f.shards }
+
+/-- **nothing stale**: with the resets the code performs on this run (regenerated), loading any
+stream into any used index gives exactly the state that loading it into a brand-new index gives —
+no stale item, no stale counter, no stale entry point; for the empty stream that state is the
+empty index -/
+theorem load_into_used_is_load_into_fresh (old : IdxState) (f : Option File) :
+    loadInto Generated.hnswLoadResets old f = loadInto Generated.hnswLoadResets IdxState.empty f := by
+  have : Generated.hnswLoadResets = ["len", "bytesSize", "entrypoint", "vertices"] := by decide
+  rw [this]
+  cases f <;> simp [loadInto, IdxState.empty]
+
+theorem load_empty_stream_empties (old : IdxState) :
+    loadInto Generated.hnswLoadResets old none = IdxState.empty := by
+  have : Generated.hnswLoadResets = ["len", "bytesSize", "entrypoint", "vertices"] := by decide
+  rw [this]; simp [loadInto, IdxState.empty]
+
+/-- without the shard reset, the empty stream loaded into a used index keeps its items (the shape
+of seeded change C08-A and of defect D5) -/
+theorem no_shard_reset_keeps_stale_items :
+    let old : IdxState := ⟨1, 24, some 7, [[⟨7, 0, [0, 0], []⟩]] ++ List.replicate 15 []⟩
+    (loadInto ["len", "bytesSize", "entrypoint"] old none).shards ≠ IdxState.empty.shards := by decide
+
+/-! ### every reachable state's metadata fits the format
+
+`File.wf` bounds the metadata of every vertex record by the width of the length fields. Since the
+repair of D5 that is no assumption about the saved state: the partition refuses metadata that does
+not fit (`Metadata.Validate`, model `mdFits`), so every item a partition can hold satisfies the
+bound (`C02.reachable_metadata_fits`, with `C02.partition_refines_map` for "the index holds what
+the specification holds"). -/
+
+/-- a stored item's metadata as the codec writes it: the UTF-8 bytes of key and value -/
+def kvOf (kv : String × String) : KV :=
+  ⟨kv.1.toUTF8.data.toList.map (·.toNat), kv.2.toUTF8.data.toList.map (·.toNat)⟩
+
+theorem metadata_wf_of_fits (md : Meta) (h : mdFits md = true) :
+    (md.map kvOf).length < 65536 ∧ ∀ kv ∈ md.map kvOf, kv.wf := by
+  unfold mdFits at h
+  simp only [Bool.and_eq_true, decide_eq_true_eq, List.all_eq_true] at h
+  refine ⟨by simp only [List.length_map]; omega, ?_⟩
+  intro kv hkv
+  obtain ⟨x, hx, rfl⟩ := List.mem_map.mp hkv
+  have := h.2 x hx
+  simp only [KV.wf, kvOf, List.length_map, Array.length_toList]
+  have h1 : x.1.toUTF8.data.size = x.1.utf8ByteSize := by
+    have : x.1.toUTF8.size = x.1.utf8ByteSize := by simp
+    exact this
+  have h2 : x.2.toUTF8.data.size = x.2.utf8ByteSize := by
+    have : x.2.toUTF8.size = x.2.utf8ByteSize := by simp
+    exact this
+  omega
+
+/-- **the metadata clause of `File.wf` holds in every reachable partition state** -/
+theorem reachable_metadata_wf (log : List Change) (i : ItemId) (it : SItem)
+    (h : (Spec.empty.runLog log).1.get i = some it) :
+    (it.md.map kvOf).length < 65536 ∧ ∀ kv ∈ it.md.map kvOf, kv.wf :=
+  metadata_wf_of_fits it.md (C02.reachable_metadata_fits log i it h)
+
+/-- the repair is in the code on this run: `Hnsw.Insert` validates first, both update paths validate
+the merged metadata before the old item is removed, and the limits are the format's (regenerated) -/
+theorem metadata_validated_in_code :
+    Generated.metadataValidatedOnInsert = true ∧ Generated.metadataValidatedBeforeRemoveOnUpdate = true ∧
+    Generated.metadataLimits = [65535, 255, 65535] := by decide
 
 /-! ### non-vacuity -/
 
